@@ -90,7 +90,8 @@ let full_annot = { annot_num = 10; holes = false; term_holes = false; forward_re
 let mixed = { full_annot with annot_num = 6; holes = true; divzero = true }
 
 type env = { vars : (string * ty) list; mutable fresh : int ref; aliases : (string * ty) list;
-             deps : (string * ty) list   (* dependent functions d : (b : bool) -> (if b then int else E) -> ..., with E *) }
+             deps : (string * ty) list;  (* dependent functions d : (b : bool) -> (if b then int else E) -> ..., with E *)
+             polys : string list         (* polymorphic identities p : (a : type) -> a -> a *) }
 
 let big_pool = [| "0"; "1"; "2"; "7"; "2147483648"; "9223372036854775807"; "9223372036854775808";
                   "18446744073709551617"; "1234567890123456789012345678901234567890" |]
@@ -121,7 +122,13 @@ let rec gen (r : Rng.t) (m : mode) (e : env) (t : ty) (size : int) : src =
            | [] -> None
            | ds -> let (d, _) = Rng.pick r ds in Some (SApp (SApp (SVar d, SFalse), gen r m e t (size / 2)))))
     else None in
+  let via_poly = if via_dep = None && size >= 2 && e.polys <> [] && Rng.chance r 1 7 then
+      (match t with
+       | Int | Bool | Arrow (Int, Int) -> Some (SApp (SApp (SVar (Rng.pick r e.polys), src_of_ty t), gen r m e t (size / 2)))
+       | _ -> None)
+    else None in
   match via_dep with Some s -> s | None ->
+  match via_poly with Some s -> s | None ->
   match t with
   | Int ->
     let leaf () =
@@ -239,7 +246,7 @@ and gen_group r m e t size =
   let e' = ref e in
   let i = ref 0 in
   while !i < n do
-    (match Rng.int r 10 with
+    (match Rng.int r 11 with
      | 0 | 1 when per >= 3 ->
        (* recursive function with structural descent on its int argument *)
        let f = fresh_name e "f" in
@@ -295,6 +302,20 @@ and gen_group r m e t size =
          defs := (w, None, wbody) :: !defs;
          e' := { !e' with deps = (w, et) :: !e'.deps }
        end
+     | 10 ->
+       (* a polymorphic identity whose body goes through a local group of aliases of its type parameter (a nested
+          group under binders whose definitions mention variables bound outside it and whose body type mentions
+          a member of the group) *)
+       let pf = fresh_name e "pf" and a = fresh_name e "ty" and x = fresh_name e "x" in
+       let t1 = fresh_name e "t" and t2 = fresh_name e "t" and y = fresh_name e "y" in
+       let inner = (match Rng.int r 4 with
+           | 0 -> SVar x
+           | 1 -> SLet ([ (t1, Some SType, SVar a); (y, Some (SVar t1), SVar x) ], SVar y)
+           | 2 -> SLet ([ (t1, Some SType, SVar a); (t2, Some SType, SVar t1); (y, Some (SVar t2), SVar x) ], SVar y)
+           | _ -> SLet ([ (y, Some (SVar t1), SVar x); (t1, Some SType, SVar a) ], SVar y)) in
+       let ann = if Rng.int r 10 < m.annot_num then Some (SPi (a, false, SType, SArrow (SVar a, SVar a))) else None in
+       defs := (pf, ann, SLam (a, false, Some SType, SLam (x, false, Some (SVar a), inner))) :: !defs;
+       e' := { !e' with polys = pf :: !e'.polys }
      | 9 ->
        (* two names for one type, and a value passed from one to the other *)
        let a1 = fresh_name e "a" and a2 = fresh_name e "a" and v1 = fresh_name e "v" and v2 = fresh_name e "v" in
@@ -342,7 +363,7 @@ and gen_group r m e t size =
       | _ -> gen r m !e' t per) in
   SLet (List.rev !defs, body)
 
-let empty_env () = { vars = []; fresh = ref 0; aliases = []; deps = [] }
+let empty_env () = { vars = []; fresh = ref 0; aliases = []; deps = []; polys = [] }
 
 (* a whole program of the given type *)
 let program (r : Rng.t) (m : mode) (t : ty) (size : int) : src =
